@@ -43,11 +43,17 @@ def _chooser(fn, idx, modname):
     p0 = first_param(fn, skip_self=False)
     out = []
     for n in walk_local(fn):
-        if isinstance(n, ast.Assign) and len(n.targets) == 1 and isinstance(n.targets[0], ast.Name) \
-                and n.targets[0].id == "encoding" and isinstance(n.value, ast.Call):
-            q = idx.resolve(modname, n.value.func)
-            arg_ok = len(n.value.args) == 1 and isinstance(n.value.args[0], ast.Name) and n.value.args[0].id == p0
-            out.append((q, arg_ok, n))
+        if isinstance(n, ast.Assign) and len(n.targets) == 1 and isinstance(n.targets[0], ast.Name) and n.targets[0].id == "encoding":
+            # the call may reach `encoding` through a local and a conditional expression: `declared = F(data)` ...
+            # `encoding = "utf-8" if declared is None else declared`
+            from .common import _subst_single_locals
+            v = n.value if isinstance(n.value, ast.Call) else _subst_single_locals(fn, n.value)
+            for c in ([v] if isinstance(v, ast.Call) else [y for y in ast.walk(v) if isinstance(y, ast.Call)]):
+                q = idx.resolve(modname, c.func)
+                if q is None or not q.startswith(modname + "."):
+                    continue
+                arg_ok = len(c.args) == 1 and isinstance(c.args[0], ast.Name) and c.args[0].id == p0
+                out.append((q, arg_ok, n))
     return out
 
 
@@ -89,6 +95,10 @@ def _check_main(ctx, res) -> None:
     dec_defaults = [lit(n.value) for n in walk_local(dec.node)
                     if isinstance(n, ast.Assign) and isinstance(n.targets[0], ast.Name) and n.targets[0].id == "encoding"
                     and lit(n.value) is not None]
+    # ... or as an arm of a conditional expression: `encoding = "utf-8" if declared is None else declared`
+    dec_defaults += [lit(arm) for n in walk_local(dec.node)
+                     if isinstance(n, ast.Assign) and isinstance(n.targets[0], ast.Name) and n.targets[0].id == "encoding" and isinstance(n.value, ast.IfExp)
+                     for arm in (n.value.body, n.value.orelse) if lit(arm) is not None]
     enc_literals = []
     for c in calls_in(enc.node):
         if call_name(c) == "encode" and isinstance(c.func, ast.Attribute):
@@ -477,7 +487,7 @@ def coding_name_alphabet_rule(ctx, res, rule: str) -> None:
                 "both PEP 263 delimiters ('=' and ':') are accepted after `coding`" if ok else
                 f"only {sorted(v)} is accepted after `coding`: a declaration written with {sorted({'=', ':'} - v)} (PEP 263 allows both) is not seen and the file "
                 "is decoded as UTF-8 / latin-1 instead of its declared encoding", function=f.qualname)
-    cfgs = {g.qualname: CFG(g.node) for g in parts}
+    cfgs = {g.qualname: CFG(_common.desugar_next(g.node)) for g in parts}  # `end = next((i for i in range(...) if <stop test>), len(text))` is the same scan
     for k, (x, v) in enumerate(alpha, 1):
         # the scan stops (break) only for characters that are neither alphanumeric nor in the punctuation set: read
         # off the guards of the stop, however the test is written (one condition, nested ifs, a named boolean)
